@@ -1,9 +1,12 @@
 use crate::engine::PropDef;
 
+pub mod c02;
+pub mod c02_producers;
+pub mod c10;
 pub mod c20;
 
 pub fn all() -> Vec<PropDef> {
-    vec![c20::def()]
+    vec![c02::def(), c10::def(), c20::def()]
 }
 
 /// entry point of `tvv child …` (used by the checks that need process isolation)
